@@ -123,16 +123,112 @@ Theorem C03_client13_as_coded :
 Proof. exact client13_as_coded. Qed.
 Print Assumptions C03_client13_as_coded.
 
+(* ---- F45: the claimed signature scheme is bound to the certificate's key.  Premise [sig_sound_*]:
+   unforgeability - under a scheme that fits the key only the holder of the leaf's private key makes
+   the verification routine accept.  [*_with true] / [*_gen true] = the repaired verification
+   (/repo 6569e78), [false] = the code before it. *)
+Theorem C03_client_accept_binds_signature :
+  forall c v, sig_sound_s v -> client12_with true c v = Accept -> sv_suite v = SCert ->
+    sv_scheme_fits_key v = true /\ sv_signed_by_leaf v = true /\ client_credential c v = true.
+Proof. exact client_accept_binds_signature. Qed.
+Print Assumptions C03_client_accept_binds_signature.
+
+Theorem C03_server_accept_binds_signature :
+  forall chk s v, sig_sound_c v -> server12_gen true chk s v = Accept -> cl_certs_given v = true ->
+    cl_scheme_fits_key v = true /\ cl_signed_by_leaf v = true /\ server_credential s v = true.
+Proof. exact server_accept_binds_signature. Qed.
+Print Assumptions C03_server_accept_binds_signature.
+
+Theorem C03_flight13_accept_binds_signature :
+  forall req k v, sig_sound_p v -> flight13_gen true req k v = Accept -> p_cv_msg v = true ->
+    p_scheme_fits_key v = true /\ p_signed_by_leaf v = true.
+Proof. exact flight13_accept_binds_signature. Qed.
+Print Assumptions C03_flight13_accept_binds_signature.
+
+(* regression witnesses: before the repair a signature forged from the victim's PUBLIC key (ECDSA leaf,
+   claimed scheme Ed25519, empty digest) was accepted with a genuinely valid chain and name *)
+Theorem C03_client_scheme_confusion_refuted :
+  exists c v, sig_sound_s v /\ cc_skip_verify c = false /\ sv_suite v = SCert /\
+    client12_with false c v = Accept /\ sv_scheme_fits_key v = false /\ sv_signed_by_leaf v = false /\
+    client_credential c v = false.
+Proof. exact client_scheme_confusion_refuted. Qed.
+Print Assumptions C03_client_scheme_confusion_refuted.
+
+Theorem C03_server_scheme_confusion_refuted :
+  exists s v, sig_sound_c v /\ sc_policy s = RequireAndVerifyClientCert /\ cl_chain_valid v = true /\
+    (forall chk, server12_gen false chk s v = Accept) /\
+    cl_scheme_fits_key v = false /\ cl_signed_by_leaf v = false /\ server_credential s v = false.
+Proof. exact server_scheme_confusion_refuted. Qed.
+Print Assumptions C03_server_scheme_confusion_refuted.
+
+Theorem C03_flight13_scheme_confusion_refuted :
+  forall from_client, exists k v, p_from_client v = from_client /\ sig_sound_p v /\ k_skip_verify k = false /\
+    k_policy k = RequireAndVerifyClientCert /\ p_x509_ok v = true /\
+    (forall req, flight13_gen false req k v = Accept) /\
+    p_scheme_fits_key v = false /\ p_signed_by_leaf v = false /\ flight13_credential k v = false.
+Proof. exact flight13_scheme_confusion_refuted. Qed.
+Print Assumptions C03_flight13_scheme_confusion_refuted.
+
+Theorem C03_scheme_binding_as_coded :
+  if verify_binds_scheme_to_key
+  then (forall c v, sig_sound_s v -> client12 c v = Accept -> sv_suite v = SCert ->
+          sv_scheme_fits_key v = true /\ sv_signed_by_leaf v = true) /\
+       (forall s v, sig_sound_c v -> server12 s v = Accept -> cl_certs_given v = true ->
+          cl_scheme_fits_key v = true /\ cl_signed_by_leaf v = true) /\
+       (forall k v, sig_sound_p v -> flight13 k v = Accept -> p_cv_msg v = true ->
+          p_scheme_fits_key v = true /\ p_signed_by_leaf v = true)
+  else (exists c v, sig_sound_s v /\ cc_skip_verify c = false /\ sv_suite v = SCert /\
+          client12 c v = Accept /\ sv_signed_by_leaf v = false) /\
+       (exists s v, sig_sound_c v /\ sc_policy s = RequireAndVerifyClientCert /\
+          server12 s v = Accept /\ cl_signed_by_leaf v = false) /\
+       (exists k v, sig_sound_p v /\ k_skip_verify k = false /\ flight13 k v = Accept /\ p_signed_by_leaf v = false).
+Proof. exact scheme_binding_as_coded. Qed.
+Print Assumptions C03_scheme_binding_as_coded.
+
+(* ---- F46: the server's session store.  [server12_session_remains true ..] = the repaired order
+   (/repo ff39c53: SetSession after the Finished check, the policy switch and VerifyConnection) *)
+Theorem C03_resumable_session_was_accepted :
+  forall bind chk s hs v, server12_session_remains true bind chk s hs v = true ->
+    server12_gen bind chk s v = Accept /\ server_required s v = true.
+Proof. exact resumable_session_was_accepted. Qed.
+Print Assumptions C03_resumable_session_was_accepted.
+
+Theorem C03_second_conn_accept_implies_checks :
+  forall bind chk s hs v1 v2 ra rv,
+    server12_second_conn true bind chk s hs v1 v2 ra rv = Accept ->
+    server_required s v1 = true \/ server_required s v2 = true.
+Proof. exact second_conn_accept_implies_checks. Qed.
+Print Assumptions C03_second_conn_accept_implies_checks.
+
+Theorem C03_refused_client_resumes_refuted :
+  exists s v1, sc_policy s = RequireAndVerifyClientCert /\ cl_certs_given v1 = false /\
+    (forall bind chk, server12_gen bind chk s v1 = Wait) /\
+    (forall bind chk v2, server12_second_conn false bind chk s true v1 v2 true true = Accept) /\
+    server_required s v1 = false /\
+    (forall bind chk v2, cl_certs_given v2 = false -> is_anon (cl_suite v2) = false ->
+       server12_gen bind chk s v2 <> Accept).
+Proof. exact refused_client_resumes_refuted. Qed.
+Print Assumptions C03_refused_client_resumes_refuted.
+
+Theorem C03_second_conn_as_coded :
+  if server12_stores_session_after_checks
+  then forall s hs v1 v2 ra rv, server12_second s hs v1 v2 ra rv = Accept ->
+         server_required s v1 = true \/ server_required s v2 = true
+  else exists s v1, sc_policy s = RequireAndVerifyClientCert /\ cl_certs_given v1 = false /\
+         server_required s v1 = false /\ forall v2, server12_second s true v1 v2 true true = Accept.
+Proof. exact second_conn_as_coded. Qed.
+Print Assumptions C03_second_conn_as_coded.
+
 (* non-vacuity: an honest certificate server is accepted, the same server under another CA is not *)
 Example C03_example_accept :
   client12 (mk_ccfg false false false false)
-           (mk_sview SCert true true true true true true true true true true true true true true) = Accept.
+           (mk_sview SCert true true true true true true true true true true true true true true true true) = Accept.
 Proof. reflexivity. Qed.
 Example C03_example_wrong_ca :
   client12 (mk_ccfg false false false false)
-           (mk_sview SCert true true true true true true false true true true true true true true) = Reject a_bad_certificate.
+           (mk_sview SCert true true true true true true false true true true true true true true true true) = Reject a_bad_certificate.
 Proof. reflexivity. Qed.
 Example C03_example_cert_without_cv_waits :
   server12 (mk_scfg RequireAnyClientCert false false)
-           (mk_cview SCert true true true false true true true true true true true) = Wait.
+           (mk_cview SCert true true true false true true true true true true true true true true) = Wait.
 Proof. reflexivity. Qed.
